@@ -5,6 +5,7 @@ import (
 	"fmt"
 	"go/format"
 	"os"
+	"path/filepath"
 	"strings"
 
 	"github.com/atombender/go-jsonschema/internal/x/text"
@@ -179,6 +180,10 @@ func (g *Generator) beginOutput(
 ) (*output, error) {
 	if packageName == "" {
 		return nil, fmt.Errorf("%w: %q", errMapURIToPackageName, id)
+	}
+
+	if outputName != "" && outputName != "-" {
+		outputName = filepath.Clean(outputName)
 	}
 
 	for _, o := range g.outputs {
